@@ -491,6 +491,41 @@ def run(prog, ctx):
     res.rule("C04.Z", n_z, 0, "table / size field pairs")
     # floating-point items are canonicalised the way Java's doubleToLongBits does (C16.D, by value)
     C.import_rules(res, prog, ctx, "C04.S.f64", "C16", ("C16.D",), "the item a theta sketch hashes for a double", 0, key_filter=lambda k: "f64|theta::" in k)
+    # the hash every slot / row / bucket is derived from is the published one for every way of feeding it (C16 rules on the murmur state)
+    C.import_rules(res, prog, ctx, "C04.H", "C16", ("C16.B", "C16.C", "C16.T", "C16.K", "C16.W"), "MurmurHash3 the theta hash is derived from", 0, key_filter=lambda k: "urmur" in k)
+    # ---------------- C04.A the reported theta is the theta the screen works with, in every state (a sampling sketch starts below 1.0
+    # and never reports a larger theta later than it reported before): theta64() / theta() by value over (table theta, emptiness)
+    n_a = 0
+    for nm, scale in (("theta64", None), ("theta", float((1 << 63) - 1))):
+        fa = C.pub_fn(prog, "theta::sketch::ThetaSketch", nm)
+        if fa is None:
+            continue
+        ea = C.ret_expr(prog, fa)
+        if ea is None:
+            continue
+        n_a += 1
+        verdict, wit = None, ""
+        for th in ((1 << 63) - 1, (1 << 62) + 7, 12345):
+            for emp in (0, 1):
+                env = {"@prog": prog, "@ieee": True}
+                for k in formula.top_leaves(ea):
+                    if k.endswith(".theta"):
+                        env[k] = th
+                    elif "empty" in k:
+                        env[k] = emp
+                    elif k.endswith("num_entries"):
+                        env[k] = 0 if emp else 3
+                try:
+                    got = formula.evaluate(ea, env)
+                except (formula.Uneval, TypeError, ZeroDivisionError):
+                    continue
+                want = th if scale is None else th / scale
+                if verdict is None:
+                    verdict = True
+                if got != want and verdict is not False:
+                    verdict, wit = False, "with the table's theta at %d and the sketch %s, %s() reports %r instead of %r" % (th, "empty" if emp else "not empty", nm, got, want)
+        res.tri(verdict, "C04.A", "C04.A|%s" % nm, "%s: %s" % (fa.id, wit), fa.id)
+    res.rule("C04.A", n_a, 2, "public theta accessors")
     res.explanation = ("structural rules over the %d functions reachable from ThetaSketch::{update,trim,reset,compact} and the builder: screen formula, "
                        "theta writers, insert/count pairing, capacity check post-domination and thresholds, probe geometry at call sites, replay loops, "
                        "trim/reset" % len(reach))
